@@ -65,6 +65,10 @@ _OOO_NAMESPACES = {
     "xsi": "http://www.w3.org/2001/XMLSchema-instance",
 }
 _NUMBER_COLUMNS_REPEATED = "{" + _OOO_NAMESPACES["table"] + "}number-columns-repeated"
+_TEXT_COUNT = "{" + _OOO_NAMESPACES["text"] + "}c"
+_TEXT_LINE_BREAK = "{" + _OOO_NAMESPACES["text"] + "}line-break"
+_TEXT_SPACES = "{" + _OOO_NAMESPACES["text"] + "}s"
+_TEXT_TAB = "{" + _OOO_NAMESPACES["text"] + "}tab"
 
 
 def _excel_cell_value(cell, datemode):
@@ -217,6 +221,35 @@ def _findall(element, xpath, namespaces):
     return result
 
 
+def _ods_text_parts(element, location):
+    """
+    The pieces of text in ``element``, which is a ``text:p`` or something
+    inside it: its own text, white space stored as ``text:s``, ``text:tab``
+    or ``text:line-break``, the text of any other child such as ``text:span``
+    or ``text:a``, and the text following each child.
+    """
+    if element.text:
+        yield element.text
+    for child in element:
+        if child.tag == _TEXT_SPACES:
+            count_text = child.attrib.get(_TEXT_COUNT, "1")
+            try:
+                yield " " * int(count_text)
+            except ValueError:
+                raise errors.DataFormatError(
+                    "text:c is %s but must be an integer" % _compat.text_repr(count_text), location
+                )
+        elif child.tag == _TEXT_TAB:
+            yield "\t"
+        elif child.tag == _TEXT_LINE_BREAK:
+            yield "\n"
+        else:
+            for part in _ods_text_parts(child, location):
+                yield part
+        if child.tail:
+            yield child.tail
+
+
 def ods_rows(source_ods_path, sheet=1):
     """
     Rows stored in ODS document ``source_ods_path`` in ``sheet``.
@@ -281,11 +314,11 @@ def ods_rows(source_ods_path, sheet=1):
                     "table:number-columns-repeated is %s but must be an integer" % _compat.text_repr(repeated_text),
                     location,
                 )
-            text_p = table_cell.find("text:p", namespaces=_OOO_NAMESPACES)
-            if text_p is None:
-                cell_value = ""
-            else:
-                cell_value = text_p.text
+            # A cell can hold several paragraphs (lines), each of them possibly made up of several pieces.
+            cell_value = "\n".join(
+                "".join(_ods_text_parts(text_p, location))
+                for text_p in _findall(table_cell, "text:p", namespaces=_OOO_NAMESPACES)
+            )
             row.extend([cell_value] * repeated_count)
             location.advance_cell(repeated_count)
         yield row
